@@ -295,7 +295,7 @@ func (h *HashSetOfValueIterator) NextValue() (value.Value, value.Value) {
 
 		element := h.HashSet.table[h.index]
 		h.index++
-		if !element.IsUndefined() {
+		if !element.IsUndefined() && element != DeletedHashSetValue {
 			return element, value.Undefined
 		}
 	}
